@@ -12,7 +12,7 @@ use crate::sup::{guarded, is_harness_location, ph, short_loc, Caught, Ctx, Phase
 use crate::util::hash_u64s;
 use crate::with_cal;
 use rateslib::calendars::{get_calendar_by_name, get_roll, Cal, CalType, DateRoll, NamedCal, RollDay, UnionCal};
-use rateslib::dual::{Dual, Dual2, Gradient1, Gradient2, Number, Vars};
+use rateslib::dual::{ADOrder, Dual, Dual2, Gradient1, Gradient2, Number, Vars};
 use rateslib::fx::rates::{Ccy, FXPair, FXRate, FXRates};
 use rateslib::splines::PPSpline;
 use rateslib::verif::{VerifCurve, VerifObj};
@@ -302,12 +302,73 @@ fn constructors(ctx: &mut Ctx, r: &mut Rng) {
         let _ = rateslib::verif::fx_take_trace();
         ctx.class(if res.is_ok() { "FXRates::try_new:ok" } else { "FXRates::try_new:err" });
         match res {
-            Ok(fx) => {
+            Ok(mut fx) => {
                 if let Some(s) = fx_shape(&fx) {
                     ctx.violation("C20|invariant|FXRates::try_new", json!({"input": m.describe(), "what": s}));
                 }
                 if !valid {
                     ctx.violation("C20|accepted-invalid|FXRates::try_new", json!({"input": m.describe()}));
+                }
+                // the market's other fallible entry points: update with ANY pairs / values, order switches
+                let mut oplog: Vec<Value> = vec![];
+                for step in 0..r.usize(5) {
+                    if r.chance(0.75) {
+                        let np = r.usize(4);
+                        let mut ups = vec![];
+                        let mut dsc = vec![];
+                        for k in 0..np {
+                            let q = &m.quotes[r.usize(m.quotes.len())];
+                            let (l, rr, pcls): (String, String, &str) = match r.below(5) {
+                                0 | 1 => (m.ccys[q.lhs].clone(), m.ccys[q.rhs].clone(), "quoted"),
+                                2 => (m.ccys[q.rhs].clone(), m.ccys[q.lhs].clone(), "inverted-quote"),
+                                3 => {
+                                    let x = r.usize(n);
+                                    let y = (x + 1 + r.usize(n - 1)) % n;
+                                    (m.ccys[x].clone(), m.ccys[y].clone(), "member-currencies")
+                                }
+                                _ => {
+                                    let f = super::fxgen::CCYS[n + r.usize(super::fxgen::CCYS.len() - n)].to_string();
+                                    if r.bool() { (f, m.ccys[r.usize(n)].clone(), "foreign-currency") } else { (m.ccys[r.usize(n)].clone(), f, "foreign-currency") }
+                                }
+                            };
+                            let val = match r.below(6) {
+                                0 => super::fxgen::QuoteVal::F(0.0),
+                                1 => super::fxgen::QuoteVal::F(-1.5),
+                                2 => super::fxgen::QuoteVal::F(hostile_f64(r)),
+                                _ => super::fxgen::gen_quote_val(r, 0.3, 50 + k),
+                            };
+                            let settle = match r.below(4) {
+                                0 => None,
+                                1 => Some(20000 + r.range_i(0, 3)),
+                                _ => q.settlement,
+                            };
+                            if let Ok(x) = FXRate::try_new(&l, &rr, val.number(), settle.map(crate::calmodel::to_ndt)) {
+                                ctx.class(&format!("update-pair:{}", pcls));
+                                dsc.push(json!({"pair": format!("{}{}", l, rr), "kind": pcls, "value": format!("{:?}", val), "settlement": settle}));
+                                ups.push(x);
+                            }
+                        }
+                        if ups.is_empty() {
+                            ctx.class("update-pair:empty-list");
+                        }
+                        oplog.push(json!({"step": step, "update": dsc}));
+                        ctx.crumb(&format!("FXRates::update {:?}", oplog));
+                        match no_panic(ctx, "FXRates::update", guarded(|| fx.update(ups).is_ok()), || json!({"market": m.describe(), "operations": oplog})) {
+                            Some(ok) => ctx.class(if ok { "FXRates::update:ok" } else { "FXRates::update:err" }),
+                            None => return,
+                        }
+                    } else {
+                        let o = r.usize(3);
+                        oplog.push(json!({"step": step, "set_ad_order": o}));
+                        if no_panic(ctx, "FXRates::set_ad_order", guarded(|| fx.set_ad_order([ADOrder::Zero, ADOrder::One, ADOrder::Two][o]).is_ok()), || json!({"market": m.describe(), "operations": oplog})).is_none() {
+                            return;
+                        }
+                    }
+                    let _ = rateslib::verif::fx_take_trace();
+                    if let Some(s) = fx_shape(&fx) {
+                        ctx.violation("C20|invariant|FXRates::update", json!({"market": m.describe(), "operations": oplog, "what": s}));
+                        return;
+                    }
                 }
             }
             Err(()) => {
@@ -411,6 +472,30 @@ fn date_arithmetic<C: DateRoll>(ctx: &mut Ctx, cal: &C, spec: &CalSpec, starts: 
 
 // ------------------------------------------------------------------ (c) splines and curves
 
+fn range_calls<C: DateRoll>(ctx: &mut Ctx, cal: &C, spec: &CalSpec, z0: i64, z1: i64) {
+    let (d0, d1) = (to_ndt(z0), to_ndt(z1));
+    let inp = || json!({"calendar": spec.describe(), "start": fmt_z(z0), "end": fmt_z(z1)});
+    ctx.crumb(&format!("date ranges {}", inp()));
+    match no_panic(ctx, "bus_date_range", guarded(|| cal.bus_date_range(&d0, &d1).ok()), inp) {
+        Some(Some(v)) => {
+            ctx.class(if z1 < z0 { "bus_date_range:reversed:ok" } else { "bus_date_range:ok" });
+            ctx.asserted(1);
+            if v.windows(2).any(|w| w[0] >= w[1]) || v.iter().any(|d| *d < d0 || *d > d1) {
+                ctx.violation("C20|invariant|bus_date_range", json!({"input": inp(), "returned": v.iter().map(|d| d.to_string()).collect::<Vec<_>>()}));
+            }
+        }
+        Some(None) => ctx.class("bus_date_range:err"),
+        None => return,
+    }
+    if let Some(Some(v)) = no_panic(ctx, "cal_date_range", guarded(|| cal.cal_date_range(&d0, &d1).ok()), inp) {
+        ctx.asserted(1);
+        let want = if z1 >= z0 { (z1 - z0 + 1) as usize } else { 0 };
+        if v.len() != want {
+            ctx.violation("C20|invariant|cal_date_range", json!({"input": inp(), "returned_len": v.len(), "expected_len": want}));
+        }
+    }
+}
+
 fn spline_calls(ctx: &mut Ctx, r: &mut Rng) {
     let k = 1 + r.usize(6);
     let (t, _) = super::c14::gen_knots(r, k, 5);
@@ -458,6 +543,24 @@ fn spline_calls(ctx: &mut Ctx, r: &mut Rng) {
             if res {
                 let _ = no_panic(ctx, "ppdnev_single(after csolve)", guarded(|| sp.ppdnev_single(&x0, r.usize(k + 2)).is_ok()), input);
             }
+            // typed evaluators and the Number mapping: every abscissa kind, solved or not, any derivative order
+            {
+                use rateslib::dual::NumberMapping;
+                let mo = r.usize(k + 2);
+                let xd = Dual::new(x0, vec!["x".into()]);
+                let xd2 = Dual2::new(x0, vec!["x".into()]);
+                let _ = no_panic(ctx, "PPSpline<f64>::ppdnev_single_dual", guarded(|| sp.ppdnev_single_dual(&xd, mo).is_ok() == res), input);
+                let _ = no_panic(ctx, "PPSpline<f64>::ppdnev_single_dual2", guarded(|| sp.ppdnev_single_dual2(&xd2, mo).is_ok() == res), input);
+                for (nm, x) in [("f64", Number::F64(x0)), ("Dual", Number::Dual(xd.clone())), ("Dual2", Number::Dual2(xd2.clone()))] {
+                    if let Some(okk) = no_panic(ctx, "PPSpline<f64>::mapped_value", guarded(|| sp.mapped_value(&x).is_ok()), input) {
+                        ctx.class(&format!("mapped_value:{}:{}", nm, if okk { "ok" } else { "err" }));
+                        ctx.asserted(1);
+                        if okk != res {
+                            ctx.violation("C20|mapped_value|solved-vs-result", json!({"input": input(), "abscissa_kind": nm, "solved": res, "ok": okk}));
+                        }
+                    }
+                }
+            }
         }
     } else {
         // zero sites: must be an error, not an abort
@@ -469,7 +572,61 @@ fn spline_calls(ctx: &mut Ctx, r: &mut Rng) {
     if m >= 1 && r.chance(0.3) {
         let mut sd = PPSpline::<Dual>::new(k, t.clone(), None);
         let yd: Vec<Dual> = y.iter().enumerate().map(|(i, v)| Dual::new(*v, vec![format!("y{}", i)])).collect();
-        let _ = no_panic(ctx, "PPSpline<Dual>::csolve", guarded(|| sd.csolve(&tau, &yd, ln, rn, lsq).is_ok()), input);
+        let solved = no_panic(ctx, "PPSpline<Dual>::csolve", guarded(|| sd.csolve(&tau, &yd, ln, rn, lsq).is_ok()), input);
+        // the evaluator of the other order is refused with an error (never computed, never an abort)
+        let xd = Dual::new(x0, vec!["x".into()]);
+        let xd2 = Dual2::new(x0, vec!["x".into()]);
+        if let Some(ok2) = no_panic(ctx, "PPSpline<Dual>::ppdnev_single_dual2", guarded(|| sd.ppdnev_single_dual2(&xd2, 0).is_ok()), input) {
+            ctx.asserted(1);
+            ctx.class("typed-evaluator:order-mismatch");
+            if ok2 {
+                ctx.violation("C20|typed-evaluator|order-mismatch-computed", json!({"input": input(), "spline": "PPSpline<Dual>", "abscissa": "Dual2"}));
+            }
+        }
+        let _ = no_panic(ctx, "PPSpline<Dual>::ppdnev_single_dual", guarded(|| sd.ppdnev_single_dual(&xd, r.usize(k + 2)).is_ok()), input);
+        let mut s2 = PPSpline::<Dual2>::new(k, t.clone(), None);
+        let yd2: Vec<Dual2> = y.iter().enumerate().map(|(i, v)| Dual2::new(*v, vec![format!("y{}", i)])).collect();
+        let _ = no_panic(ctx, "PPSpline<Dual2>::csolve", guarded(|| s2.csolve(&tau, &yd2, ln, rn, lsq).is_ok()), input);
+        if let Some(ok1) = no_panic(ctx, "PPSpline<Dual2>::ppdnev_single_dual", guarded(|| s2.ppdnev_single_dual(&xd, 0).is_ok()), input) {
+            ctx.asserted(1);
+            if ok1 {
+                ctx.violation("C20|typed-evaluator|order-mismatch-computed", json!({"input": input(), "spline": "PPSpline<Dual2>", "abscissa": "Dual"}));
+            }
+        }
+        let _ = no_panic(ctx, "PPSpline<Dual2>::ppdnev_single_dual2", guarded(|| s2.ppdnev_single_dual2(&xd2, r.usize(k + 2)).is_ok()), input);
+        let _ = solved;
+    }
+    // business / calendar date ranges: any two dates in either order, business days or not
+    if r.chance(0.3) {
+        let y0 = 1975 + r.range_i(0, 210);
+        let lo = days_from_civil(y0, 1, 1);
+        let hi = days_from_civil(y0 + 3, 12, 31);
+        let spec = gen_calspec(r, lo, hi);
+        let z0 = lo + 400 + r.range_i(0, 300);
+        let z1 = z0 + r.range_i(-400, 400);
+        match build_cal(&spec) {
+            Some(any) => {
+                with_cal!(&any, c => range_calls(ctx, c, &spec, z0, z1));
+            }
+            None => ctx.harness_error("calendar build".into()),
+        }
+    }
+    // derivative-order switches on curves never abort
+    if r.chance(0.15) {
+        let mut co = gen_curve_obj(r);
+        let mut seq = vec![];
+        for _ in 0..1 + r.usize(5) {
+            let o = r.usize(3);
+            seq.push(o);
+            let q = super::curvegen::ts_to_ndt(co.spec.ts[0] + r.range_i(-50, 4000));
+            if no_panic(ctx, "Curve::set_ad_order", guarded(|| co.curve.set_ad_order([ADOrder::Zero, ADOrder::One, ADOrder::Two][o])), || json!({"curve": co.spec.describe(), "rule": co.rule, "orders": seq})).is_none() {
+                return;
+            }
+            if co.rule != "null" {
+                let _ = no_panic(ctx, "Curve::index_value(after set_ad_order)", guarded(|| co.curve.index_value(&q).is_ok()), || json!({"curve": co.spec.describe(), "rule": co.rule, "orders": seq}));
+            }
+        }
+        ctx.class("curve:order-switch-sequence");
     }
     // index_value without a base is an error
     if r.chance(0.2) {
@@ -520,12 +677,12 @@ fn valid_doc(kind: &str, r: &mut Rng) -> (Value, Value) {
             (v.clone(), Value::Null)
         }
         "FXRates" => {
-            let (fx, _, _) = gen_fxrates(r);
+            let (fx, _, _, _, _) = gen_fxrates(r);
             let v = serde_json::to_value(&fx).unwrap();
             (v.clone(), tag("FXRates", &v))
         }
         "FXRate" => {
-            let (fx, _, _) = gen_fxrates(r);
+            let (fx, _, _, _, _) = gen_fxrates(r);
             let v = serde_json::to_value(&fx).unwrap();
             (v["fx_rates"][0].clone(), Value::Null)
         }
@@ -1048,6 +1205,9 @@ impl Prop for C20 {
             v.push(format!("{}:ok", c));
             v.push(format!("{}:err", c));
         }
+        for c in ["FXRates::update:ok", "FXRates::update:err", "update-pair:quoted", "update-pair:inverted-quote", "update-pair:member-currencies", "update-pair:foreign-currency", "update-pair:empty-list"] {
+            v.push(c.to_string());
+        }
         v.push("sweep:all-256-day-counts".into());
         v.push("sweep:add_months-grid".into());
         for s in ["spread", "all-repeated", "out-of-domain", "end-points-only", "random"] {
@@ -1055,6 +1215,9 @@ impl Prop for C20 {
         }
         v.push("csolve:spread:ok".into());
         v.push("index_value:err-without-base".into());
+        for c in ["mapped_value:f64:ok", "mapped_value:Dual:ok", "mapped_value:Dual2:ok", "mapped_value:f64:err", "typed-evaluator:order-mismatch", "bus_date_range:ok", "bus_date_range:err", "curve:order-switch-sequence"] {
+            v.push(c.to_string());
+        }
         for k in JKINDS {
             v.push(format!("json:{}:loaded", k));
             v.push(format!("json:{}:rejected", k));
@@ -1071,7 +1234,7 @@ impl Prop for C20 {
         tier.pick(300_000, 10_000_000)
     }
     fn rule(&self) -> String {
-        "(a) Dual/Dual2::try_new(_from), Ccy / FXPair / FXRate / FXRates::try_new, NamedCal::try_new, get_calendar_by_name with boundary and random arguments (length mismatches, duplicate names, empty lists, 0-8 character and multi-byte currency codes, random quote multigraphs incl. zero / negative rates, calendar strings over names , | spaces garbage); every Ok is checked against the type's shape invariants and against an independent validity oracle. (b) add_bus_days, lag, add_days for ALL 256 day counts x both flags, roll and add_months for offsets landing in 1970-2200 x roll days 1-31 x every RollDay / Modifier, on the calendar zoo. (c) csolve with arbitrary site / data lengths, repeated, end-point-only and out-of-domain sites, left_n / right_n up to k+2, both allow_lsq, evaluation before csolve, index_value without base, get_roll(Unspecified). (d) valid JSON documents of every kind mutated structurally (delete / duplicate a field, change a type, shrink / grow an array, swap values, hostile replacements, targeted edits of consistency fields, truncation) and loaded through the per-type and the tagged entry points. Monitor: catch_unwind around every call + invariant checker on every Ok; worker processes with breadcrumbs observe aborts. distinct_nontrivial = distinct (kind, mutation, text) / generated inputs.".into()
+        "(a) Dual/Dual2::try_new(_from), Ccy / FXPair / FXRate / FXRates::try_new, NamedCal::try_new, get_calendar_by_name with boundary and random arguments (length mismatches, duplicate names, empty lists, 0-8 character and multi-byte currency codes, random quote multigraphs incl. zero / negative rates, calendar strings over names , | spaces garbage); every Ok is checked against the type's shape invariants and against an independent validity oracle. (b) add_bus_days, lag, add_days for ALL 256 day counts x both flags, roll and add_months for offsets landing in 1970-2200 x roll days 1-31 x every RollDay / Modifier, on the calendar zoo. (c) csolve with arbitrary site / data lengths, repeated, end-point-only and out-of-domain sites, left_n / right_n up to k+2, both allow_lsq, evaluation before csolve, index_value without base, get_roll(Unspecified); the typed spline evaluators ppdnev_single_dual / _dual2 on all three spline types (an order-mismatched abscissa must give Err) and mapped_value for f64 / Dual / Dual2 abscissae; bus_date_range / cal_date_range for any two dates in either order; Curve::set_ad_order sequences with index_value after each. (a') on every accepted market: FXRates::update with quoted, inverted, member-currency-cross and foreign pairs, zero / negative / hostile / dual values, empty and duplicated lists, and FXRates::set_ad_order switches, shape invariants re-checked after every step. (d) valid JSON documents of every kind mutated structurally (delete / duplicate a field, change a type, shrink / grow an array, swap values, hostile replacements, targeted edits of consistency fields, truncation) and loaded through the per-type and the tagged entry points. Monitor: catch_unwind around every call + invariant checker on every Ok; worker processes with breadcrumbs observe aborts. distinct_nontrivial = distinct (kind, mutation, text) / generated inputs.".into()
     }
     fn assumptions(&self) -> Vec<String> {
         vec![
